@@ -337,6 +337,9 @@ class Project:
         return drawn
 
 
+LAST_TREES = []        # the structured blobs of the project built last (for the printer tie)
+
+
 def tree_bytes(node):
     from translator import umlblob as tu
     return tu.print_node(node)
@@ -351,6 +354,7 @@ def project_rows(rng, cd, name=None):
     name = (name or cd.name).encode()
     ms = [(i, ty, parent, nm, tree_bytes(node)) for (i, ty, parent, nm, node) in drawn] + \
          [(i, ty, parent, nm, tree_bytes(node)) for (i, ty, parent, nm, node) in pr.rows]
+    LAST_TREES[:] = [node for (_i, _ty, _p, _nm, node) in drawn + pr.rows]
     es = [(pr.new_id(), ty, did, i) for (i, ty, _p, _n, _node) in drawn]
     rng.shuffle(ms)
     return ([(did, b"ClassDiagram", name)], es, ms), name
@@ -373,3 +377,22 @@ def modid(view, cd=None):
     c, p, a, i = view
     names = sorted({x for k in c for x in k[2].split(b"::") if x}) if cd is not None else sorted(x[1] for x in p)
     return [c, names, [x[1:] for x in a], [x[1:] for x in i]]
+
+
+def tree_v(node):
+    """a structured blob (the tuples of translator/umlblob.py and of Project) as a kmodel value for ub_print_node"""
+    _t, i, name, ty, items, tail = node
+    out = []
+    for it in items:
+        k = it[0]
+        if k == "field":
+            out.append([b"F", it[1], it[2], it[3]])
+        elif k == "refs":
+            out.append([b"R", it[1], it[2], it[3], it[4], it[5], list(it[6])])
+        elif k == "children":
+            out.append([b"C", it[1], it[2], it[3], it[4], it[5], [tree_v(n) for n in it[6]]])
+        elif k == "raw":
+            out.append([b"W", it[1]])
+        else:
+            out.append([b"I", it[1]])
+    return [i, [] if name is None else [name], ty, out, tail]
